@@ -1,7 +1,8 @@
 (* Gen/LookupInstThm.v -- facts about the tables regenerated from /repo (Generated/Gen_Lookup.v) and the general C16 theorems
    instantiated with them.  The boolean facts are closed by vm_compute on the CURRENT tables: a change of the pydsdl hierarchy,
    of a built-in template set, of the bundled jinja2 test names, of a language's tests or of the alias rule re-runs them. *)
-From Verif Require Import Str Lookup LookupThm LookupEnv LookupEnvThm Gen_Lookup LookupInst.
+From Verif Require Import Str Lookup LookupThm LookupSortThm LookupEnv LookupEnvThm Gen_Lookup LookupInst.
+From Coq Require Import Permutation.
 Import ListNotations.
 Open Scope N_scope.
 
@@ -62,9 +63,9 @@ Proof. apply (chain_fuel p_bases p_rank p_rank_ok). pose proof (p_rank_fuel c). 
 Lemma p_lookup_nearest q pol dirs pkg c : p_lookup_seq q pol dirs pkg [c] = p_spec_seq pol dirs pkg [c].
 Proof.
   unfold p_lookup_seq, p_spec_seq. destruct (mk_loaders pol dirs pkg) as [fs pk]. cbn [run_seq map].
-  pose proof (cold_lookup p_bases p_rank p_single p_rank_ok q (p_index fs) (p_index pk) p_fuel c (p_rank_fuel c)) as H.
+  pose proof (cold_lookup p_bases p_rank p_single p_rank_ok q (p_index_fs fs) (p_index_pkg pk) p_fuel c (p_rank_fuel c)) as H.
   unfold st0 in H.
-  destruct (type_to_template p_bases q (p_index fs) (p_index pk) p_fuel [] c) as [st r].
+  destruct (type_to_template p_bases q (p_index_fs fs) (p_index_pkg pk) p_fuel [] c) as [st r].
   cbn [snd] in H. rewrite H. unfold spec. rewrite p_chain. reflexivity.
 Qed.
 
@@ -73,20 +74,70 @@ Qed.
 Lemma p_cache_transparent pol dirs pkg cs : p_lookup_seq false pol dirs pkg cs = p_spec_seq pol dirs pkg cs.
 Proof.
   unfold p_lookup_seq, p_spec_seq. destruct (mk_loaders pol dirs pkg) as [fs pk].
-  transitivity (map (spec p_bases p_rank (p_index fs) (p_index pk)) cs).
+  transitivity (map (spec p_bases p_rank (p_index_fs fs) (p_index_pkg pk)) cs).
   { apply (run_seq_sep p_bases p_rank p_single p_rank_ok _ _ p_fuel cs st0 (fun c _ => p_rank_fuel c) (inv_sep_nil _ _)). }
   apply map_ext. intros c. unfold spec. rewrite p_chain. reflexivity.
 Qed.
 
+(* enumeration order: the walk of the directories may produce the names in any order and with repetitions; only the SET of names
+   of all user search paths together, and of the package, matters -- no premise on duplicate stems *)
+Definition same_names (a b : list path) : Prop := forall x, In x a <-> In x b.
+Lemma p_idx_ext raw raw' : same_names raw raw' -> p_idx raw = p_idx raw'.
+Proof. intros H. unfold p_idx. rewrite (list_templates_ext raw raw' H). reflexivity. Qed.
+
+Lemma p_enum_order_indep q pol (rs rs' : list (list path)) (pk pk' : list path) cs :
+  same_names (concat rs) (concat rs') -> same_names pk pk' ->
+  p_lookup_seq q pol (Some rs) (Some pk) cs = p_lookup_seq q pol (Some rs') (Some pk') cs.
+Proof.
+  intros H1 H2. unfold p_lookup_seq, mk_loaders, p_index_fs, p_index_pkg, fs_raw.
+  destruct pol; cbn [option_map]; rewrite (p_idx_ext _ _ H1); [reflexivity|]. rewrite (p_idx_ext _ _ H2). reflexivity.
+Qed.
+
 (* only a file whose name is exactly <ClassName><TEMPLATE_SUFFIX> can be the template of a class *)
-Lemma p_only_exact_names listing c p : tmap p_name (p_tset listing) c = Some p ->
-  In p listing /\ basename p = p_name c ++ g_template_suffix.
-Proof. unfold tmap, p_tset. apply mk_tset_exact. discriminate. Qed.
+Lemma p_only_exact_names raw c p : p_idx raw c = Some p -> In p raw /\ basename p = p_name c ++ g_template_suffix.
+Proof.
+  unfold p_idx, tmap, p_tset. intros H. apply mk_tset_exact in H; [|discriminate]. destruct H as [H1 H2].
+  split; [apply list_templates_In; exact H1 | exact H2].
+Qed.
+
+(* ---- instance tests: availability, identity, truth -- for EVERY class below the two roots ----------------------------------- *)
+Definition below_roots (c : cls) : bool := isinst p_bases p_fuel c g_cls_SerializableType || isinst p_bases p_fuel c g_cls_Attribute.
+Definition tests_available_ok : bool :=
+  forallb (fun c => negb (below_roots c) ||
+                    (match aget p_tests (p_name c) with Some r => r =? c | None => false end &&
+                     match aget p_tests (p_alias (lower (p_name c))) with Some r => r =? c | None => false end)) p_ids.
+(* the model's table and the table registered by the implementation (import-time dump with the class captured by each closure)
+   are the same map *)
+Definition registered_agree_ok : bool :=
+  forallb (fun e => match aget p_tests (fst e) with Some r => r =? snd e | None => false end) g_registered_tests &&
+  forallb (fun e => match aget g_registered_tests (fst e) with Some r => r =? snd e | None => false end) p_tests.
+Lemma tests_available_true : tests_available_ok = true.   Proof. vm_compute. reflexivity. Qed.
+Lemma registered_agree_true : registered_agree_ok = true. Proof. vm_compute. reflexivity. Qed.
+
+Lemma p_tests_available c : In c p_ids -> below_roots c = true ->
+  aget p_tests (p_name c) = Some c /\ aget p_tests (p_alias (lower (p_name c))) = Some c.
+Proof.
+  intros Hin Hb. pose proof tests_available_true as F. unfold tests_available_ok in F. rewrite forallb_forall in F.
+  specialize (F c Hin). rewrite Hb in F. cbn [negb orb] in F. apply andb_prop in F. destruct F as [F1 F2].
+  split.
+  - destruct (aget p_tests (p_name c)) as [r|]; [|discriminate F1]. apply N.eqb_eq in F1. subst. reflexivity.
+  - destruct (aget p_tests (p_alias (lower (p_name c)))) as [r|]; [|discriminate F2]. apply N.eqb_eq in F2. subst. reflexivity.
+Qed.
 
 (* T2-translated _field_is_instance = membership of the value, or of an attribute's data type *)
 Lemma g_field_is_instance_spec isinst attr root vc vdt :
   g_field_is_instance isinst attr root vc vdt = isinst vc root || (isinst vc attr && isinst vdt root).
 Proof. unfold g_field_is_instance. destruct (isinst vc attr), (isinst vc root), (isinst vdt root); reflexivity. Qed.
+
+Definition is_inst (a b : cls) : bool := isinst p_bases p_fuel a b.
+(* `{% if v is <Class> %}` and `{% if v is <alias> %}` exist for every class below the roots and mean isinstance *)
+Lemma p_test_truth c v : In c p_ids -> below_roots c = true ->
+  p_test false (p_name c) v = Some (is_inst (v_cls v) c || (is_inst (v_cls v) g_cls_Attribute && is_inst (v_dt v) c)) /\
+  p_test false (p_alias (lower (p_name c))) v = Some (is_inst (v_cls v) c || (is_inst (v_cls v) g_cls_Attribute && is_inst (v_dt v) c)).
+Proof.
+  intros Hin Hb. destruct (p_tests_available c Hin Hb) as [A1 A2]. unfold p_test. rewrite A1, A2, g_field_is_instance_spec.
+  split; reflexivity.
+Qed.
 
 Lemma p_test_agrees name v : p_test false name v = p_test_spec name v.
 Proof.
@@ -103,43 +154,3 @@ Proof. unfold p_gate_unchecked. rewrite gate_checks_existing_true. apply builtin
 Lemma p_builtin_global_rejected lang n v : str_in n g_jinja_globals = true ->
   init_globals p_gate_unchecked g_jinja_globals p_reserved g_init_written lang [(n, v)] = None.
 Proof. unfold p_gate_unchecked. rewrite gate_checks_existing_true. apply user_global_rejected_checked. Qed.
-
-(* antichainb t = true  ->  the Prop used by the general theorem *)
-Lemma antichainb_sound t : aget t [] = None -> antichainb t = true -> antichain p_bases p_rank (tmap p_name t).
-Proof.
-  intros Hempty H c a Hc Ha. unfold antichainb in H. rewrite forallb_forall in H.
-  destruct (memN c p_ids) eqn:M.
-  - apply memN_In in M. specialize (H c M). destruct (tmap p_name t c) eqn:Tc; [|contradiction Hc; reflexivity].
-    rewrite forallb_forall in H. unfold proper_ancestors in H. rewrite p_chain in H. specialize (H a Ha).
-    destruct (tmap p_name t a); [discriminate H | reflexivity].
-  - exfalso. apply Hc. unfold tmap, p_name.
-    destruct (tbl_get g_classes c) as [[n x]|] eqn:G; [|exact Hempty].
-    apply tbl_get_In in G. assert (In c p_ids) as I by (unfold p_ids; apply in_map_iff; exists (c, (n, x)); split; [reflexivity | exact G]).
-    apply memN_In in I. rewrite I in M. discriminate M.
-Qed.
-
-Definition shipped_ok (t : tset) : bool :=
-  antichainb t && match aget t [] with None => true | Some _ => false end.
-
-Lemma shipped_sets_ok : forallb (fun e => shipped_ok (snd e)) g_builtin_templates = true.
-Proof. vm_compute. reflexivity. Qed.
-
-(* every sequence of lookups against a SHIPPED built-in template set, any user directory listing, either policy, the shared
-   memo of the unchanged code: every result is the nearest-ancestor result *)
-Lemma p_shipped_transparent lang l pol dirs cs : In (lang, l) g_builtin_listings ->
-  p_lookup_seq true pol dirs (Some l) cs = p_spec_seq pol dirs (Some l) cs.
-Proof.
-  intros Hin0. set (t := p_tset l).
-  assert (Hin : In (lang, t) g_builtin_templates).
-  { unfold g_builtin_templates. apply in_map_iff. exists (lang, l). split; [reflexivity | exact Hin0]. }
-  pose proof shipped_sets_ok as S. rewrite forallb_forall in S. specialize (S _ Hin). cbn [snd] in S.
-  unfold shipped_ok in S. apply andb_prop in S. destruct S as [S1 S2].
-  assert (E : aget t [] = None) by (destruct (aget t []); [discriminate S2 | reflexivity]).
-  unfold p_lookup_seq, p_spec_seq. destruct (mk_loaders pol dirs (Some l)) as [fs pk] eqn:ML.
-  assert (Hok : transparent_cond p_bases p_rank (p_index fs) (p_index pk)).
-  { unfold mk_loaders in ML. destruct pol, dirs as [d|]; inversion ML; subst; unfold p_index; cbn [option_map];
-      try (right; left; reflexivity); try (left; reflexivity); right; right; apply antichainb_sound; assumption. }
-  transitivity (map (spec p_bases p_rank (p_index fs) (p_index pk)) cs).
-  { apply (run_seq_sh p_bases p_rank p_single p_rank_ok _ _ p_fuel Hok cs st0 (fun c _ => p_rank_fuel c) (inv_sh_nil _ _ _ _)). }
-  apply map_ext. intros c. unfold spec. rewrite p_chain. reflexivity.
-Qed.
